@@ -547,7 +547,8 @@ func init() {
 	register(&Rule{
 		Name:  "EFF-result",
 		Doc:   "the result of Clone, of (*Url).Parse and of BasicParser reaches no memory of the original / base except frozen configuration and referents that are never written",
-		Props: []string{"C13"},
+		Props: []string{"C13", "C12"},
+		PropFloor: map[string]int{"C13": 3},
 		Floor: 3,
 		Run: func(c *Ctx, s *core.Sink) {
 			e := BuildEff(c)
@@ -604,7 +605,11 @@ func init() {
 				}
 				sort.Strings(bad)
 				if len(bad) > 0 {
-					s.Bad(key, c.P.Pos(t.f.Pos()), "result shares mutable state with "+t.what+": "+strings.Join(bad, "; "))
+					props := []string{"C13"}
+					if strings.Contains(strings.Join(bad, " "), "SearchParams:") {
+						props = []string{"C13", "C12"}
+					}
+					s.Bad(key, c.P.Pos(t.f.Pos()), "result shares mutable state with "+t.what+": "+strings.Join(bad, "; "), props...)
 				} else {
 					s.OK(key, c.P.Pos(t.f.Pos()), fmt.Sprintf("closure of the result: %d referents rooted at %s, all frozen configuration or never-written", n, t.what))
 				}
